@@ -285,6 +285,57 @@ m("C07", "queued-progress-from-sent", CH,
   "	return dataLimit, chst.Sent(), nil",
   "C07.4", "queued progress seeded from the sent counter after restart")
 
+# ---------------- C08
+MG = "manager.go"
+m("C08", "wrong-direction-counter", MG,
+  "	if chst.IsPull() {\n		limitFactor = chst.Queued()\n	} else {\n		limitFactor = chst.Received()\n	}",
+  "	if chst.IsPull() {\n		limitFactor = chst.Received()\n	} else {\n		limitFactor = chst.Queued()\n	}",
+  "C08.2", "resume rule reads the wrong direction's counter", "calibration")
+m("C08", "gt-instead-of-geq", MG,
+  "	return vr.DataLimit != 0 && limitFactor >= vr.DataLimit",
+  "	return vr.DataLimit != 0 && limitFactor > vr.DataLimit",
+  "C08.2", "> instead of >= in the resume rule", "calibration")
+m("C08", "progress-forgotten-after-restart", CH,
+  "	dataLimit := chst.DataLimit()\n	return dataLimit, chst.Received(), nil",
+  "	dataLimit := chst.DataLimit()\n	_ = chst.Received()\n	return dataLimit, 0, nil",
+  "C07.4", "progress forgotten after a restart", "calibration")
+m("C08", "pause-notifies-wrong-peer", EV,
+  "		if err := m.dataTransferNetwork.SendMessage(ctx, chid.Initiator, msg); err != nil {\n			return err\n		}\n	}\n\n	return err",
+  "		if err := m.dataTransferNetwork.SendMessage(ctx, chid.Responder, msg); err != nil {\n			return err\n		}\n	}\n\n	return err",
+  "C08.5", "the pause is announced to the wrong peer", "calibration")
+m("C08", "progress-gt-boundary", CA,
+  "	return state.dataLimit != 0 && total >= state.dataLimit, nil",
+  "	return state.dataLimit != 0 && total > state.dataLimit, nil",
+  "C08.1", "total == limit does not pause")
+m("C08", "pause-only-on-crossing", CA,
+  "	return state.dataLimit != 0 && total >= state.dataLimit, nil",
+  "	if state.dataLimit == 0 || total < state.dataLimit {\n		return false, nil\n	}\n	return total-additionalData < state.dataLimit, nil",
+  "C08.1", "only the crossing report pauses; later reports past the limit run on", "seeded/C08b")
+m("C08", "seed-read-before-lock", CA,
+  "	pc.lk.Lock()\n	defer pc.lk.Unlock()\n	value, ok = pc.values[chid]\n	if ok {\n		return value, nil\n	}\n	dataLimit, progress, err := readProgress(chid)\n	if err != nil {\n		return progressState{}, err\n	}",
+  "	dataLimit, progress, err := readProgress(chid)\n	if err != nil {\n		return progressState{}, err\n	}\n	pc.lk.Lock()\n	defer pc.lk.Unlock()\n	value, ok = pc.values[chid]\n	if ok {\n		return value, nil\n	}",
+  "C07.2", "limit raised while the seed read is in flight is overwritten by the stale one", "seeded/C08a")
+m("C08", "no-limit-exceeded-event", CH,
+  "		if err := c.stateMachines.Send(chid, datatransfer.DataLimitExceeded); err != nil {\n			return err\n		}\n",
+  "",
+  "C08.3", "responder not marked paused when the limit is hit")
+m("C08", "cache-limit-not-updated", CH,
+  "	c.progressCache.setDataLimit(chid, dataLimit)\n",
+  "",
+  "C08.6", "a raised limit is not seen by the cached limit check")
+m("C08", "pause-not-signalled-to-graphsync", GS,
+  "	if err == datatransfer.ErrPause {\n		hookActions.PauseRequest()\n	}",
+  "	if err == datatransfer.ErrPause {\n		log.Debugf(\"pause requested\")\n	}",
+  "C08.5", "graphsync request keeps running past the limit")
+m("C08", "limit-check-skipped-for-push", CH,
+  "	return c.fireProgressEvent(chid, datatransfer.DataReceived, datatransfer.DataReceivedProgress, delta, index, unique, c.getReceivedIndex, c.getReceivedProgress)",
+  "	return c.fireProgressEvent(chid, datatransfer.DataReceived, datatransfer.DataReceivedProgress, delta, index, unique, c.getReceivedIndex, nil)",
+  "C07.4", "push transfers never hit their limit")
+m("C08", "resume-while-still-over-limit", "impl/impl.go",
+  "	if resultErr == nil && result.Accepted && !pauseRequest {",
+  "	if resultErr == nil && result.Accepted {",
+  "C04.7", "accepting update resumes although progress is past the new limit")
+
 by = collections.defaultdict(list)
 for x in M:
     p = x.pop("prop")
